@@ -2,7 +2,7 @@
     Model: Model/Queue.v (queue.go + backoff.go + container/heap transcribed). A history is any list of
     timed operations (AddOrUpdate, Pop, Bump, SetIndexed with any state, MaybeRemoveMissing, Len, key set)
     on any ids, known or not; [reach bd mx h] is the state after history h from NewQueue(bd, mx). *)
-From ZV Require Import Lib.Base Model.Queue Proofs.QueueHeap Proofs.QueueMap Proofs.QueueInv Proofs.QueueOps Proofs.QueueSpec Proofs.QueueHistory.
+From ZV Require Import Lib.Base Model.Queue Proofs.QueueHeap Proofs.QueueMap Proofs.QueueInv Proofs.QueueOps Proofs.QueueSpec Proofs.QueueHistory Proofs.QueueKeyed.
 
 Definition reach (bd mx : Z) (h : list (Z * op)) : queue := run (new_queue bd mx) h.
 
@@ -54,6 +54,26 @@ Theorem C30_pop_observed : forall q now,
   RPop (option_map (fun i => let o := it_opts (item_of (q_items (fst (step q now OPop))) i) in (o_repo o, o_ver o)) (pop_id q)).
 Proof. exact pop_observed. Qed.
 Print Assumptions C30_pop_observed.
+
+(** which repository a Pop yields: in every reachable state the options stored under id are the zero value (an item
+    created by SetIndexed on an untracked id that never received options) or options of repository id itself; so the
+    options Pop returns are for exactly the repository whose item left the heap, or the zero options *)
+Theorem C30_options_keyed : forall bd mx h id x,
+  get id (q_items (reach bd mx h)) = Some x -> it_opts x = opts_zero \/ o_repo (it_opts x) = id.
+Proof. intros bd mx h. exact (reachable_keyed bd mx h). Qed.
+Print Assumptions C30_options_keyed.
+
+Theorem C30_pop_yields_its_repo : forall bd mx h q' o,
+  pop (reach bd mx h) = (q', Some o) ->
+  exists id, pop_id (reach bd mx h) = Some id /\ on_heap (reach bd mx h) id /\ (o = opts_zero \/ o_repo o = id).
+Proof. exact pop_yields_its_repo. Qed.
+Print Assumptions C30_pop_yields_its_repo.
+
+(** the zero-options case is real: SetIndexed on an untracked id, then Bump, then Pop returns IndexOptions{} *)
+Example ex_zero_options_popped :
+  exists q', pop (reach 0 0 [(1, OSetIndexed 3 1 2); (2, OBump [3]%N)]%Z) = (q', Some opts_zero) /\
+             pop_id (reach 0 0 [(1, OSetIndexed 3 1 2); (2, OBump [3]%N)]%Z) = Some 3%N.
+Proof. eexists. vm_compute. split; reflexivity. Qed.
 
 (** Pop yields a minimum of the enqueued set under the priority order, returns that repository's current
     options, removes exactly it from the queue (once per enqueue, part 2) and keeps it tracked, off the heap. *)
